@@ -78,6 +78,19 @@ def run(tier):
     cases = [lineage_steps(l) for l in chosen]
     nb = 16
     batches = [("lin-%d" % i, cases[i::nb], False) for i in range(nb) if cases[i::nb]]
+    # lineages whose generation numbers cross digit boundaries (8, 9, 10, ... 100+): every key is overwritten in every generation, then
+    # everything is compacted at once (the order of the inputs decides which version survives), read, restarted, read
+    for ngen in ([12, 31, 104] if thorough else [12, 31]):
+        u = dbgen.Uniq("g")
+        st = [dbgen.open_step(500, 1 << 30, 1000, mem=1 << 30)]
+        for i in range(ngen):
+            st += [{"op": "put", "k": i % 3, "v": u.next(), "pad": 0}, {"op": "put", "k": 3, "v": u.next(), "pad": 0}]
+            if i % 7 == 6:
+                st.append({"op": "del", "k": (i + 1) % 3})
+            st.append({"op": "rotate"})
+        st += [{"op": "barrier"}, {"op": "getall", "k": 5}, {"op": "close"}, dbgen.open_step(1, 1 << 30, 1000), {"op": "getall", "k": 5}, {"op": "compact"},
+               {"op": "getall", "k": 5}, {"op": "close"}, dbgen.open_step(1, 1 << 30, 1000), {"op": "getall", "k": 5}, {"op": "close"}]
+        batches.append(("gens-%d" % ngen, [st], False))
     kinds = run_batches(o, binary, batches, "C06")
     o.evaluations = len(cases)
     o.nontrivial = len({json.dumps(l, sort_keys=True) for l in chosen})
